@@ -13,8 +13,11 @@ Definition olist_eqb (a b : option (list Z)) : bool :=
   end.
 
 (* inputs, constructor call (with recorded draws), observed selection (None = raised),
-   and for range wrappers the selections of the two complementary wrappers *)
-Definition case_t : Type := (list Z * Z * wcase * option (list Z) * list (list Z))%type.
+   for range wrappers the selections of the two complementary wrappers, and - where a second wrapper was
+   constructed on top of the first - that constructor call (with its recorded draws) and the selection observed
+   through both wrappers *)
+Definition case_t : Type :=
+  (list Z * Z * wcase * option (list Z) * list (list Z) * option (wcase * option (list Z)))%type.
 
 Definition labels_ok (classes : list Z) (C : Z) : bool :=
   forallb (fun c => (0 <=? c) && (c <? C)) classes.
@@ -37,6 +40,7 @@ Definition spec_holds (classes : list Z) (C : Z) (w : wcase) (o : list Z) (compl
   match w with
   | WClassFilter v cls =>
       list_eqb o (spec_class_filter classes (fun c => Bool.eqb (existsb (Z.eqb c) cls) v))
+  | WClassFilterNames v cn names => list_eqb o (spec_class_filter_names classes v cn names)
   | WPercent f t cf ct =>
       (* np.arange(a, b): the block [a, b), empty when b <= a *)
       is_block (fcut cf (odflt f 0%float) n) (fcut ct (odflt t 1%float) n) o && in_range classes o
@@ -114,7 +118,7 @@ Definition given {A} (a b : option A) : bool := is_some a || is_some b.
 Definition must_succeed (classes : list Z) (C : Z) (w : wcase) : bool :=
   let n := zlen classes in
   match w with
-  | WClassFilter _ _ | WShuffle _ | WSortByClass => true
+  | WClassFilter _ _ | WClassFilterNames _ _ _ | WShuffle _ | WSortByClass => true
   | WOversample _ => labels_ok_u classes (n_classes_eff C) && negb (Nat.eqb (length classes) 0) && (0 <? C)
   | WPercent f t _ _ => pct_ok (odflt f 0%float) && pct_ok (odflt t 1%float)
   | WSubsetRange s e => given s e && (0 <=? odflt s 0) && (odflt s 0 <=? Z.min (odflt e n) n)
@@ -134,14 +138,21 @@ Definition must_succeed (classes : list Z) (C : Z) (w : wcase) : bool :=
   | WSubsetIdx _ => false
   end.
 
+(* a second wrapper on top: the selection seen through both equals the model's composition (Model.stacked_with) *)
+Definition stack_agrees (classes : list Z) (C : Z) (w : wcase) (st : option (wcase * option (list Z))) : bool :=
+  match st with
+  | None => true
+  | Some (w2, composed) => olist_eqb (stacked classes C w w2) composed
+  end.
+
 (* 0 = impl, model and spec agree; 1 = model differs from impl; 2 = spec false on the impl's
    output; 3 = the binary64 percent -> index map violates the contract the theorems assume *)
 Definition check (c : case_t) : nat :=
-  let '(classes, C, w, out, compl) := c in
+  let '(classes, C, w, out, compl, st) := c in
   if negb (float_contract_ok classes C w) then 3%nat else
   match out with
   | Some o => if negb (spec_holds classes C w o compl) then 2%nat
-              else if olist_eqb (run classes C w) out then 0%nat else 1%nat
+              else if olist_eqb (run classes C w) out && stack_agrees classes C w st then 0%nat else 1%nat
   | None => if must_succeed classes C w then 2%nat
             else if olist_eqb (run classes C w) out then 0%nat else 1%nat
   end.
